@@ -1,5 +1,4 @@
 import Witverif.Abi.Names
-import Witverif.Text.Heck
 /-
 C13, model side: the string-building each binding generator of /repo uses for the core
 import/export declarations it emits, transcribed function by function.
@@ -22,7 +21,7 @@ A declaration is `must` when the generator emits it unconditionally for the item
 set of future/stream intrinsics per *type*, async built-ins only when something is async).
 The correspondence run checks  must ⊆ extracted ⊆ must ∪ optional.
 
-Import-free apart from `Abi/*` and `Text/Heck` (C's `to_snake_case`).
+Import-free apart from `Abi/*`.
 -/
 namespace Witverif.Abi.Names
 
@@ -42,8 +41,8 @@ structure Emit where
   importRes : Key → String → List MImp
   exportResImports : Key → String → List MImp
   exportRes : Key → String → List Exp
-  worldImports : List MImp
-  worldExports : List Exp
+  worldImports : World → List MImp
+  worldExports : World → List Exp
 
 def Emit.itemImports (e : Emit) : Item → List MImp
   | .iface i => i.funcs.flatMap (e.importFn i.key) ++ i.res.flatMap (e.importRes i.key)
@@ -63,10 +62,10 @@ def Emit.itemExports (e : Emit) : Item → List Exp
 
 /-- `WorldGenerator::generate` -/
 def Emit.imports (e : Emit) (w : World) : List MImp :=
-  w.imports.flatMap e.itemImports ++ w.exports.flatMap e.itemExportImports ++ e.worldImports
+  w.imports.flatMap e.itemImports ++ w.exports.flatMap e.itemExportImports ++ e.worldImports w
 
 def Emit.exports (e : Emit) (w : World) : List Exp :=
-  w.exports.flatMap e.itemExports ++ e.worldExports
+  w.exports.flatMap e.itemExports ++ e.worldExports w
 
 /-! ### pieces shared by several generators (they live in wit-parser / wit-bindgen-core) -/
 
@@ -114,9 +113,6 @@ def asyncBuiltinsCommon : List Imp := [
 
 /-! ### C -/
 namespace C
-
-/-- `name.to_snake_case()` (heck) -/
-def snake (s : String) : String := String.ofList (Witverif.Text.Heck.snake s.toList)
 
 /-- `generate_async_future_or_stream`: the seven declarations of one payload site -/
 def fsDecls (module kind : String) (stream : Bool) (index : Nat) (funcName : String) : List Imp :=
@@ -183,8 +179,9 @@ def exportResImports (k : Key) (name : String) : List MImp :=
       must ⟨"[export]" ++ module, "[resource-rep]" ++ name, [.i32], [.i32]⟩ ]
   | none => []
 
-/-- `__attribute__((__export_name__("{module}#[dtor]{snake}")))` -/
-def dtorExport (module name : String) : Exp := ⟨module ++ "#[dtor]" ++ snake name, [.i32], []⟩
+/-- `__attribute__((__export_name__("{module}#[dtor]{name}")))` (since /repo 97de409; before that fix the
+snake-cased name was used: finding F4 `c-dtor-export-snake-case`, found by C11/C13) -/
+def dtorExport (module name : String) : Exp := ⟨module ++ "#[dtor]" ++ name, [.i32], []⟩
 
 def exportRes (k : Key) (name : String) : List Exp :=
   match k.worldKey with
@@ -198,8 +195,8 @@ def emit : Emit where
   importRes := importRes
   exportResImports := exportResImports
   exportRes := exportRes
-  worldImports := asyncBuiltinsCommon.map opt
-  worldExports := [Spec.realloc]
+  worldImports := fun _ => asyncBuiltinsCommon.map opt
+  worldExports := fun _ => [Spec.realloc]
 end C
 
 /-! ### Rust -/
@@ -290,8 +287,8 @@ def emit : Emit where
   importRes := importRes
   exportResImports := exportResImports
   exportRes := exportRes
-  worldImports := []          -- the async built-ins live in the runtime crate, not in generated text
-  worldExports := []          -- `cabi_realloc` lives in the runtime crate
+  worldImports := fun _ => []          -- the async built-ins live in the runtime crate, not in generated text
+  worldExports := fun _ => []          -- `cabi_realloc` lives in the runtime crate
 end Rust
 
 /-! ### Go -/
@@ -362,8 +359,8 @@ def emit : Emit where
   importRes := importRes
   exportResImports := exportResImports
   exportRes := exportRes
-  worldImports := []
-  worldExports := []
+  worldImports := fun _ => []
+  worldExports := fun _ => []
 end Go
 
 /-! ### D (no async support: every function is bound synchronously) -/
@@ -403,8 +400,8 @@ def emit : Emit where
   importRes := importRes
   exportResImports := exportResImports
   exportRes := exportRes
-  worldImports := []
-  worldExports := [Spec.realloc]
+  worldImports := fun _ => []
+  worldExports := fun _ => [Spec.realloc]
 end D
 
 /-! ### C++ (no async support) -/
@@ -447,9 +444,12 @@ def postReturnExport (k : Key) (f : Fn) : Exp :=
 def exportFn (k : Key) (f : Fn) : List Exp :=
   mainExport k f :: (if needsPostReturn f.sig then [postReturnExport k f] else [])
 
-/-- synthesised `Function { name: "[resource-drop]" + name }` → `declare_import(module, func.name, [I32], [])` -/
+/-- synthesised `Function { name: "[resource-drop]" + name }` → `declare_import(module, func.name, [I32], [])`;
+`type_resource` does nothing unless `if let TypeOwner::Interface(intf) = type_.owner` -/
 def importRes (k : Key) (name : String) : List MImp :=
-  [must ⟨importModule k, "[resource-drop]" ++ name, [.i32], []⟩]
+  match k with
+  | .root => []
+  | _ => [must ⟨importModule k, "[resource-drop]" ++ name, [.i32], []⟩]
 
 def exportResImports (k : Key) (name : String) : List MImp :=
   [ must ⟨"[export]" ++ importModule k, "[resource-new]" ++ name, norm [.ptr], [.i32]⟩,
@@ -468,8 +468,8 @@ def emit : Emit where
   importRes := importRes
   exportResImports := exportResImports
   exportRes := exportRes
-  worldImports := []
-  worldExports := [Spec.realloc]
+  worldImports := fun _ => []
+  worldExports := fun _ => [Spec.realloc]
 end Cpp
 
 /-! ### MoonBit (every name goes through wit-parser's own functions) -/
@@ -524,8 +524,8 @@ def emit : Emit where
   importRes := importRes
   exportResImports := exportResImports
   exportRes := exportRes
-  worldImports := (asyncBuiltinsCommon ++ Spec.unitBuiltins).map opt   -- async-core/*.mbt
-  worldExports := [Spec.realloc]
+  worldImports := fun _ => (asyncBuiltinsCommon ++ Spec.unitBuiltins).map opt   -- async-core/*.mbt
+  worldExports := fun _ => [Spec.realloc]
 end MoonBit
 
 /-! ### C# (no `--async` option: the WIT `async` keyword decides) -/
@@ -607,6 +607,21 @@ def exportResImports (k : Key) (name : String) : List MImp :=
 def exportRes (k : Key) (name : String) : List Exp :=
   [⟨(match k.worldKey with | some s => s ++ "#" | none => "") ++ "[dtor]" ++ name, [.i32], []⟩]
 
+/-- the world's own resource types (`world w { resource x; … }`: imported types) -/
+def worldResources (w : World) : List String :=
+  w.imports.filterMap fun it => match it with | .rtype r => some r | _ => none
+
+def hasWorldExportFunc (w : World) : Bool :=
+  w.exports.any fun it => match it with | .func _ => true | _ => false
+
+/-- `export_funcs` runs `by_resource(funcs, world_resources.keys())` with `Direction::Export`: as soon
+as the world exports a function, every world-level resource also gets the *exported*-resource glue -/
+def worldImports (w : World) : List MImp :=
+  if hasWorldExportFunc w then (worldResources w).flatMap (exportResImports .root) else []
+
+def worldExports (w : World) : List Exp :=
+  if hasWorldExportFunc w then (worldResources w).flatMap (exportRes .root) else []
+
 def emit : Emit where
   importFn := importFn
   exportFnImports := exportFnImports
@@ -614,8 +629,8 @@ def emit : Emit where
   importRes := importRes
   exportResImports := exportResImports
   exportRes := exportRes
-  worldImports := []    -- future/stream intrinsics: `addFuturesOrStreams`, compared structurally
-  worldExports := []
+  worldImports := worldImports    -- (future/stream intrinsics: `addFuturesOrStreams`, compared structurally)
+  worldExports := worldExports
 end CSharp
 
 structure Backend where
